@@ -23,6 +23,7 @@ import (
 	"errors"
 	"fmt"
 	"math/big"
+	"sort"
 
 	"github.com/youchainhq/go-youchain/common"
 	"github.com/youchainhq/go-youchain/common/hexutil"
@@ -183,14 +184,24 @@ func (st *StateDB) newStakingRecord(key biAddress) *stakingRecord {
 
 func (st *StateDB) updateStakingTrie() error {
 	//stakingRecords
+	// Encode every dirty record before the trie is touched: the dirty set is a map, and a
+	// record that cannot be encoded must not leave the trie with the records that happened
+	// to come before it in this run's iteration order.
+	type encodedRecord struct {
+		key  biAddress
+		data []byte
+	}
+	updates := make([]encodedRecord, 0, len(st.stakingRecordsDirty))
 	for key := range st.stakingRecordsDirty {
-		sr := st.stakingRecords[key]
-		data, err := rlp.EncodeToBytes(sr)
+		data, err := rlp.EncodeToBytes(st.stakingRecords[key])
 		if err != nil {
 			return err
 		}
-		err = st.stakingTrie.TryUpdate(key[:], data)
-		if err != nil {
+		updates = append(updates, encodedRecord{key, data})
+	}
+	sort.Slice(updates, func(i, j int) bool { return bytes.Compare(updates[i].key[:], updates[j].key[:]) < 0 })
+	for _, u := range updates {
+		if err := st.stakingTrie.TryUpdate(u.key[:], u.data); err != nil {
 			return err
 		}
 	}
